@@ -74,7 +74,17 @@ Theorem C11_box_tree_sample_then_satisfies : forall acosF fuel s us x rest,
   box_tree s -> Forall (fun u => (u < 2^64)%N) us ->
   sample acosF fuel s us = (Some (Ok x), rest) -> satisfies acosF s x = Ok true.
 Proof. intros acosF fuel s us x rest Hs Hu H. exact (proj1 (box_tree_sample_law acosF fuel s Hs us x rest Hu H)). Qed.
+(* enforcing twice = enforcing once: lifted to compounds of any width, closed (no side condition at all) for
+   every compound tree of boxes *)
+Theorem C11_compound_enforce_idempotent : forall acosF sinF subs,
+  Forall (fun sw => enf_idem_law acosF sinF (fst sw)) subs -> enf_idem_law acosF sinF (CS subs).
+Proof. exact compound_enforce_idempotent. Qed.
+Theorem C11_box_tree_enforce_idempotent : forall acosF sinF s x r,
+  box_tree s -> enforce acosF sinF s x = Ok r -> enforce acosF sinF s r = Ok r.
+Proof. intros acosF sinF s x r Hs. exact (box_tree_idem acosF sinF s Hs x r). Qed.
 
+Print Assumptions C11_compound_enforce_idempotent.
+Print Assumptions C11_box_tree_enforce_idempotent.
 Print Assumptions C11_box_tree_sample_then_satisfies.
 
 Print Assumptions C11_compound_sample_then_satisfies.
